@@ -226,7 +226,7 @@ func (c *Ctx) mapRangeRule(key string, rg *ssa.Range) {
 			if !body[p] {
 				continue
 			}
-			for _, cs := range c.Reach(fn).Cases(phi.Edges[i]) {
+			for _, cs := range c.Reach(fn).CasesStop(phi.Edges[i], map[ssa.Value]bool{phi: true}) {
 				v := cs.V
 				// condition of this way round the loop: the latch's reaching condition (within one iteration) and the φ-case
 				if cs.Cond == nil {
